@@ -110,7 +110,17 @@ func fromScheme(s sign.Scheme) *instance {
 		pk, sk := s.DeriveKey(seed)
 		a, _ := pk.MarshalBinary()
 		b, _ := sk.MarshalBinary()
-		return a, b
+		// the returned buffers are copied out and wiped; marshalling again must give the same bytes
+		a2, b2 := append([]byte{}, a...), append([]byte{}, b...)
+		core.Recycle(a)
+		core.Recycle(b)
+		if x, _ := pk.MarshalBinary(); !bytes.Equal(x, a2) {
+			return []byte("MarshalBinary shares memory with the public key"), b2
+		}
+		if x, _ := sk.MarshalBinary(); !bytes.Equal(x, b2) {
+			return a2, []byte("MarshalBinary shares memory with the private key")
+		}
+		return a2, b2
 	}
 	in.restore = func(skB []byte) ([]byte, func([]byte, string) []byte, error) {
 		sk, err := s.UnmarshalBinaryPrivateKey(skB)
